@@ -500,7 +500,7 @@ func TestC10_Combos(t *testing.T) {
 			}
 			return c
 		},
-		Run: runAnteCase,
+		Run:  runAnteCase,
 		Rule: "generated sequences of 4-24 crafted transactions on one live chain: single- and multi-message transactions (pairs/triples mixing allowed and forbidden types, the block message beside others), multi-signer transactions, memos, timeouts, signature faults, every signer class, all five modes (prepare through CheckTx + the real proposal builder, whose block message followed by the crafted transaction is then given back to ProcessProposal); evaluations count transactions",
 	})
 }
